@@ -859,6 +859,7 @@ func genRotScript(rng *vh.Rng) rotScript {
 }
 
 type rotObs struct {
+	lateSync bool // a lost tail was observed but a late sync fell into the rotation: not judged
 	fails    []vh.SpecFailure
 	skipped  string // reason the case could not be evaluated (counted in the distribution)
 	unsent   bool   // part of the old file was not yet confirmed when the rotation began
@@ -1077,7 +1078,26 @@ func runRotCase(s rotScript, verbose bool) (o rotObs) {
 	switch {
 	case bytes.Equal(cOld, wOld):
 	case len(cOld) < len(wOld) && bytes.HasPrefix(wOld, cOld):
-		if s.Mode != "truncate" {
+		// the oracle presumes that the scanner's sync k ran before the rotation began and sync k+1 after the last write to
+		// the old file. A sync that is served late (a loaded machine) can fall between the rename and the writer's last
+		// bytes through the old handle; the old worker is then told to stop and meets its EOF before those bytes exist —
+		// by design they are not collected. Such a sync also starts the new file's worker early: a record of the new file
+		// confirmed before tick k+1 is the evidence; the case is then skipped, not failed.
+		lateSync := false
+		nextTick := tBefore.Add(time.Duration(k+1) * time.Second)
+		for _, e := range cons.ledger() {
+			isNew := false
+			for _, b := range e.Payload {
+				if b >= 'A' && b <= 'Z' {
+					isNew = true
+				}
+			}
+			if isNew && e.TRet.Before(nextTick.Add(-10*time.Millisecond)) {
+				lateSync = true
+			}
+		}
+		o.lateSync = lateSync
+		if s.Mode != "truncate" && !lateSync {
 			fail("lost-tail-on-rotation", fmt.Sprintf("%s rotation: %d bytes were written to the old file (all before the scanner's next sync); only the first %d are confirmed %v after the last progress", s.Mode, len(wOld), len(cOld), rotDrainDeadline),
 				fmt.Sprintf("confirmed=%d", len(cOld)), fmt.Sprintf("confirmed=%d missing=%s", len(wOld), short(wOld[len(cOld):])))
 		}
@@ -1096,7 +1116,7 @@ const rotationRule = "one scanner session on <dir>/app.log (IncludePaths matches
 	"re-created, (truncate) truncated in place after everything old was confirmed; then upper-case lines go to the new file (truncate: fewer bytes than the old offset). " +
 	"Everything written to the old file is written at least 200 ms before the scanner's next sync. Oracle: the confirmed upper-case stream equals the new file " +
 	"(from its beginning, complete, once); rename/remove: the confirmed lower-case stream equals everything written to the old file. Cases where the new file got " +
-	"the old inode number are skipped. non-trivial = every evaluated case, distinct by script"
+	"the old inode number are skipped, and so is a lost-tail observation when a record of the new file was confirmed before the next tick (a late sync fell into the rotation).  non-trivial = every evaluated case, distinct by script"
 
 func reportRot(sec *vh.Section, s rotScript, o rotObs) {
 	if o.infraErr != "" {
@@ -1109,6 +1129,9 @@ func reportRot(sec *vh.Section, s rotScript, o rotObs) {
 	}
 	res.Eval(sec, digest(s))
 	res.Dist(sec, "mode="+s.Mode)
+	if o.lateSync {
+		res.Dist(sec, "late-sync-overlapped-rotation (lost tail not judged)")
+	}
 	if o.unsent {
 		res.Dist(sec, "old-bytes-unconfirmed-when-rotated")
 	}
